@@ -491,4 +491,134 @@ theorem spawnTask_fresh {g : Graph} {s s' : State} {n : String} {p : Int} {y : P
           · exact hH
         · exact hH
 
+
+theorem good_of_fresh {sp : Int} {y : Proxy} (h : Fresh y) : Good sp y := fun _ => ⟨h.2, Or.inl h.1⟩
+
+theorem good_of_pool_eq {sp : Int} {s s' : State} (h : s'.pool = s.pool) (hs : PoolGood sp s) : PoolGood sp s' := by
+  intro x hx; rw [h] at hx; exact hs x hx
+
+theorem pool_spawnTask (g : Graph) (s : State) (n : String) (p : Int) : (spawnTask g s n p).1.pool = s.pool := by
+  unfold spawnTask
+  simp only
+  split
+  · rfl
+  · split
+    · rfl
+    · split
+      · rfl
+      · split
+        · rfl
+        · split
+          · split <;> rfl
+          · rfl
+
+theorem good_spawnAndAdd {sp : Int} (g : Graph) (s : State) (n : String) (p : Int) (h : PoolGood sp s) :
+    PoolGood sp (spawnAndAdd g s n p) := by
+  unfold spawnAndAdd
+  split
+  · exact h
+  · have hp := pool_spawnTask g s n p
+    split
+    · rename_i s' x heq
+      rw [heq] at hp
+      exact good_add (good_of_pool_eq hp h) (good_of_fresh (spawnTask_fresh heq))
+    · rename_i s' heq
+      rw [heq] at hp
+      exact good_of_pool_eq hp h
+
+theorem good_spawnNextParentless {sp : Int} (g : Graph) (s : State) (x : Proxy) (h : PoolGood sp s) :
+    PoolGood sp (spawnNextParentless g s x) := by
+  unfold spawnNextParentless
+  split
+  · exact h
+  · split
+    · exact good_spawnAndAdd _ _ _ _ h
+    · exact h
+
+theorem reset_pt (x : Proxy) (a : Option Status) (b c d : Option Bool) : (x.reset a b c d).pt = x.pt := by
+  unfold Proxy.reset; simp only; split <;> rfl
+
+theorem good_releaseRunahead {sp : Int} (g : Graph) (s : State) (h : PoolGood sp s)
+    (hl : ∀ l, s.rhLimit = some l → l ≤ sp) : PoolGood sp (releaseRunahead g s).1 := by
+  unfold releaseRunahead
+  split
+  · exact h
+  · rename_i lim hlim
+    split
+    · exact h
+    · simp only
+      apply foldl_inv_mem (PoolGood sp)
+      · intro st x hx hst
+        apply good_spawnNextParentless
+        split
+        · rename_i y hy
+          apply good_put hst
+          apply good_of_le
+          rw [reset_pt, (get?_key hy).1]
+          have := (List.mem_filter.mp hx).2
+          simp only [Bool.and_eq_true, decide_eq_true_eq] at this
+          have := hl lim hlim
+          omega
+        · exact hst
+      · exact h
+
+/-- a proxy that is ready to be queued lies at or before the stop point -/
+theorem ready_le {sp : Int} {x : Proxy} (hx : Good sp x) (hr : x.runahead = false) (hw : x.status = .waiting) :
+    x.pt ≤ sp := by
+  by_cases hlt : sp < x.pt
+  · obtain ⟨_, h⟩ := hx hlt
+    rcases h with h | ⟨_, h⟩
+    · rw [hr] at h; exact absurd h (by decide)
+    · exact absurd hw h
+  · omega
+
+theorem isReady_waiting {x : Proxy} (h : x.isReadyToRun = true) : x.status = .waiting := by
+  unfold Proxy.isReadyToRun at h
+  simp only [Bool.and_eq_true, beq_iff_eq] at h
+  exact h.1.1.2
+
+theorem good_queueIfReady {sp : Int} (s : State) (x : Proxy) (h : PoolGood sp s) (hx : Good sp x) :
+    PoolGood sp (queueIfReady s x) := by
+  unfold queueIfReady
+  split
+  · rename_i hc
+    simp only [Bool.and_eq_true, Bool.not_eq_eq_eq_not, Bool.not_true] at hc
+    apply good_put h
+    apply good_of_le
+    rw [reset_pt]
+    exact ready_le hx hc.1.2 (isReady_waiting hc.2)
+  · exact h
+
+theorem good_holdActive {sp : Int} (s : State) (x : Proxy) (h : PoolGood sp s) (hx : Good sp x) :
+    PoolGood sp (holdActive s x) := by
+  unfold holdActive
+  simp only
+  have : PoolGood sp (s.put (x.reset (held := some true))) :=
+    good_put h (hx.upd (upd_reset x none none _ (by simp) (by simp)))
+  split
+  · exact this
+  · exact this
+
+theorem reset_held_runahead (x : Proxy) (b : Option Bool) : (x.reset (held := b)).runahead = x.runahead := by
+  unfold Proxy.reset; simp only; split <;> rfl
+
+theorem reset_held_pt (x : Proxy) (b : Option Bool) : (x.reset (held := b)).pt = x.pt := reset_pt _ _ _ _ _
+
+theorem good_releaseHeldActive {sp : Int} (s : State) (x : Proxy) (h : PoolGood sp s) (hx : Good sp x) :
+    PoolGood sp (releaseHeldActive s x) := by
+  unfold releaseHeldActive
+  simp only
+  apply good_of_pool_eq (s := if x.held = true then _ else s) rfl
+  split
+  · have hy : Good sp (x.reset (held := some false)) := hx.upd (upd_reset x none none _ (by simp) (by simp))
+    apply good_put h
+    split
+    · rename_i hc
+      simp only [Bool.and_eq_true, Bool.not_eq_eq_eq_not, Bool.not_true] at hc
+      apply good_of_le
+      rw [reset_pt]
+      exact ready_le hy hc.1 (isReady_waiting hc.2)
+    · exact hy
+  · exact h
+
 end CylcModel.Sched2
